@@ -388,7 +388,9 @@ def examine(case, path, pq=None, ctx=None):
                         fails.append(({**cls0, "component": "statistics", "what": "user-null_count"},
                                       {**info, "detail": "%s: null_count = %r, stored chunk has %d" % (vlabel, un[gi], exp_nulls)}))
             percol.setdefault(name, []).append({"ord": ordsx, "key": key, "ordv": ordv, "raw_min": raw_min, "raw_max": raw_max,
-                                                "ptype": cmd.type, "cls": cls0, "want": want_l})
+                                                "ptype": cmd.type, "cls": cls0, "want": want_l,
+                                                # api.statistics collapses the WHOLE min/max list of such a column to [None] when one row group lacks it
+                                                "collapsing": se.converted_type is not None or se.logicalType is not None or cmd.type == 3})
             # ---------------- ties ----------------
             if pq is None:
                 continue
@@ -446,6 +448,11 @@ def examine(case, path, pq=None, ctx=None):
     # ---------------- sorted_partitioned_columns: every call of the sequence ----------------
     for v in sorted_views:
         sub = list(range(nrg)) if v["idx"] is None else list(v["idx"])
+        if v["err"]:
+            fails.append(({"kind": "any", "categorical": False, "v2": bool(o.get("v2")), "multipage": False, "ptype": "any",
+                           "component": "sorted_partitioned_columns", "what": "raises"},
+                          {"col": None, "rg": None, "detail": "%s with filters=%r (row groups kept: %s) raises %s" % (v["label"], v["filter"], v["idx"], v["err"])}))
+            continue
         for name, lst in percol.items():
             listed = name in v["res"]
             if listed:
@@ -474,10 +481,12 @@ def examine(case, path, pq=None, ctx=None):
             if pq is not None:
                 tname = S.PTYPE_NAME[lst[0]["ptype"]]
                 mins, maxs, okdec = [], [], True
+                collapsed = {"min": lst[0]["collapsing"] and any(g["raw_min"] is None for g in lst),
+                             "max": lst[0]["collapsing"] and any(g["raw_max"] is None for g in lst)}
                 for i in sub:
                     g = lst[i]
-                    for raw, acc in ((g["raw_min"], mins), (g["raw_max"], maxs)):
-                        if raw is None:
+                    for raw, acc, w in ((g["raw_min"], mins, "min"), (g["raw_max"], maxs, "max")):
+                        if raw is None or collapsed[w]:
                             acc.append([])
                         else:
                             d = pq.call("dec_stat", tname, S_bytes(raw))
